@@ -57,6 +57,10 @@ def run(tier):
             c.sc, c.profile, c.mode, c.seed = sc, "fd_error", m, seed * 1000 + k
             cases.append(c)
 
+    for k in range(8 if tier == "quick" else 100):
+        c = cc.Case()
+        c.sc, c.profile, c.mode, c.seed = gen.gen_signal_vs_task_thread(seed * 100 + k), "signal_vs_task_thread", ("loop" if k % 2 else "dispatch"), seed * 100 + k
+        cases.append(c)
     for k in range(2):
         c = cc.Case()
         c.sc, c.profile, c.mode, c.seed = gen.gen_task_queued_at_quit(seed * 10 + k), "task_queued_at_quit", ("loop" if k else "dispatch"), seed * 10 + k
